@@ -83,6 +83,16 @@ CHECKS = {
    text="3*10^5 (thorough 10^7) step streams with regime changes (volatile, exactly flat, 10^+-k scale jumps, drifts, lattices, sign flips) and plain random walks for all 22 finite-window/selection methods at lengths {1,2,3,5,14,100,254}, the reversal detectors (every step, exact) and 13 finite-memory indicators: selections/positions/signals exact on dense late bands (around multiples of 2^8 and 2^16, every 997th step, last 1000), arithmetic outputs against the from-scratch formula at geometric checkpoints inside K*eps*(n+t)*M_t*g, and agreement of the veteran with a fresh instance primed with the last window.",
    note="Known findings (listed): t^1.5 drift of the double-accumulator averages (WMA, LinReg, SWMA, HMA) beyond any linear allowance; RSI/CCI residue ratio on an exactly flat window. Streams are a pure function of a small parameter record (the replay file).",
    ref="DESIGN.md §5 C07, Appendix A"),
+ "C19": dict(
+   technique="differential testing of generated API programs between two builds (bit-exact transcripts) + libFuzzer/ASan targets with in-target semantic oracles",
+   text="The harness is built twice from the current tree (default / unsafe_performance); 6 400 (thorough 64 000) generated programs over every method kind, Window op sequences and every indicator (constructor, next, peek, serde snapshot/restore, clone, iterators) must yield identical 128-bit transcripts wherever the default build does not panic; a crash of the unsafe build is a violation. Quick tier replays the committed fuzz corpus through the oracles; thorough tier runs libFuzzer+AddressSanitizer campaigns (window_ops, smm_stream, method_program, window_json) on the unsafe_performance build.",
+   note="ASan silence is evidence for the explored inputs only. Calls on which the default build panics are outside the claim and are not issued against the unsafe build.",
+   ref="DESIGN.md §5 C19, §7"),
+ "C20": dict(
+   technique="differential transcripts across feature builds + re-running the definitional PBT checks (C02/C03/C04/C14) inside each feature build",
+   text="O1: the C19 program transcripts of the period_type_u16/u32/u64 builds (and u16+unsafe) must equal the default build's for all programs (parameters <= 254) the default build accepts. O2: the from-scratch/recurrence/exact-selection/crossing checks are executed inside the u16/u32/u64 builds with window lengths 255..65534 added, and inside value_type_f32 (single-precision epsilon, reference in f64 on f32-rounded inputs) and its unsafe combination.",
+   note="Quick tier uses four feature builds (u16, u64, f32, u16+unsafe), thorough all seven. All builds are produced by ./check from the current /repo tree.",
+   ref="DESIGN.md §5 C20"),
 }
 
 PENDING = {
@@ -109,7 +119,7 @@ def main():
           for p in props if p not in CHECKS]
     m = {
         "version": 1,
-        "setup_cmd": "cd /verif/harness && CARGO_NET_OFFLINE=true cargo build --release",
+        "setup_cmd": "cd /verif && ./check --build-all",
         "hooks": {
             "guard": "yata_verif",
             "enable": "no hooks are needed: every observation goes through the public API; checks build /repo as a path dependency of /verif/harness",
